@@ -205,6 +205,9 @@ structure St where
   opNotify : Option NotifyRec := none
   opRes : String := ""
   opHodl : List (Nat × String) := []
+  /-- calls of a concurrent group (monitor-only stream): evaluated together at `pend` -/
+  parOps : List (NotifyRec × String) := []
+  concCases : Nat := 0
   intro : List (Nat × NotifyRec) := []
   settledKeys : List Nat := []
   canceledKeys : List Nat := []
@@ -270,16 +273,25 @@ def resClass (r : String) : String := (r.splitOn ":").headD "?"
 
 def resField (r : String) (i : Nat) : String := ((r.splitOn ":")[i]?).getD ""
 
-/-- payment-address rule for the notify `n` that created an htlc on an invoice requiring address
-    `addr`: the address the htlc carried — the MPP record's, else the blinded path ID — must be
-    exactly the invoice's; an htlc carrying neither is only admissible as a valid keysend (the
-    sender knows the preimage). `some reason` = violated. -/
-def addrViolation (n : NotifyRec) (addr : String) : Option String :=
+/-- payment-address rule for the notify `n` that created an htlc on an invoice with address
+    `addr`.  `(clause, reason)`:
+    * `payment_address_mpp` — the call carried an address (MPP record, else blinded path ID) and
+      it is not the invoice's: checked for every invoice, also without the payment-addr-required
+      bit, because `updateMpp` compares unconditionally (a payment secret that is present must
+      match);
+    * `payment_address` — the invoice requires an address (`P`) and the call carried none: only
+      admissible as a valid keysend (the sender knows the preimage). -/
+def addrViolation (n : NotifyRec) (addr : String) (required : Bool) : Option (String × String) :=
   match n.mpp, n.path with
-  | some (_, a), _ => if a != addr then some s!"mpp record carries {a}" else none
-  | none, some p => if p != addr then some s!"path id is {p}" else none
+  | some (_, a), _ =>
+    if a != addr then some (if required then "payment_address" else "payment_address_mpp",
+      s!"mpp record carries {a}") else none
+  | none, some p =>
+    if p != addr then some (if required then "payment_address" else "payment_address_mpp",
+      s!"path id is {p}") else none
   | none, none =>
-    if sha256Hex n.ks != some n.hash || n.ks.length != 64 then some "no payment address carried"
+    if required && (sha256Hex n.ks != some n.hash || n.ks.length != 64) then
+      some ("payment_address", "no payment address carried")
     else none
 
 /-- checks for one settle resolution `r` for circuit key `k`. -/
@@ -321,12 +333,13 @@ def checkSettle (s : St) (k : Nat) (r : String) : IO St := do
     if (g.exp : Int) < u32sum g.ah s.rejectDelta || (g.exp : Int) < u32sum g.ah d.cltv then
       s ← monitor s "expiry_margin" s!"htlc {g.key}: expiry {g.exp} accepted at height {g.ah} with reject delta {s.rejectDelta}, final cltv delta {d.cltv}"
     -- payment address rule, from the notify that created the htlc
-    if d.feat.contains 'P' then
-      match (s.intro.find? (·.1 == g.key)).map (·.2) with
-      | none => s ← monitor s "payment_address" s!"htlc {g.key} was never notified"
-      | some n =>
-        if let some why := addrViolation n d.addr then
-          s ← monitor s "payment_address" s!"htlc {g.key} settled on invoice {d.hash} that requires payment address {d.addr}: {why}"
+    match (s.intro.find? (·.1 == g.key)).map (·.2) with
+    | none =>
+      if d.feat.contains 'P' then
+        s ← monitor s "payment_address" s!"htlc {g.key} was never notified"
+    | some n =>
+      if let some (cl, why) := addrViolation n d.addr (d.feat.contains 'P') then
+        s ← monitor s cl s!"htlc {g.key} settled on invoice {d.hash} with payment address {d.addr} (feat {d.feat}): {why}"
   -- AMP: per-htlc preimage recorded and valid
   if isAmp then
     for g in set do
@@ -352,10 +365,27 @@ def finishOp (s : St) : IO St := do
         s := { s with intro := (n.key, n) :: s.intro }
         -- the htlc was accepted (held or settled) into an invoice: address rule at accept time
         if let some (d, _) := findHtlcD s.cur n.key then
-          if d.feat.contains 'P' then
-            s := { s with acceptsChecked := s.acceptsChecked + 1 }
-            if let some why := addrViolation n d.addr then
-              s ← monitor s "payment_address" s!"htlc {n.key} accepted ({s.opRes.take 40}) into invoice {d.hash} that requires payment address {d.addr}: {why}"
+          s := { s with acceptsChecked := s.acceptsChecked + 1 }
+          if let some (cl, why) := addrViolation n d.addr (d.feat.contains 'P') then
+            s ← monitor s cl s!"htlc {n.key} accepted ({s.opRes.take 40}) into invoice {d.hash} with payment address {d.addr} (feat {d.feat}): {why}"
+  -- concurrent group: every call of the group is treated like the notify of this operation
+  for (n, res) in s.parOps do
+    if (findHtlcD s.prev n.key).isNone && (findHtlcD s.cur n.key).isSome then
+      if !(s.intro.any (·.1 == n.key)) then
+        s := { s with intro := (n.key, n) :: s.intro }
+        if let some (d, _) := findHtlcD s.cur n.key then
+          s := { s with acceptsChecked := s.acceptsChecked + 1 }
+          if let some (cl, why) := addrViolation n d.addr (d.feat.contains 'P') then
+            s ← monitor s cl s!"htlc {n.key} accepted ({res.take 40}) into invoice {d.hash} with payment address {d.addr} (feat {d.feat}): {why}"
+    if resClass res == "settle" then
+      if sha256Hex (resField res 2) != some n.hash then
+        s ← monitor s "settle_preimage" s!"notify for hash {n.hash} answered with a preimage that does not hash to it"
+      s ← checkSettle s n.key res
+    -- a call that was answered accept / settle must be on record (in that or a later state)
+    if resClass res == "accept" || resClass res == "settle" then
+      match findHtlcD s.cur n.key with
+      | none => s ← monitor s "settle_htlc_recorded" s!"concurrent call for htlc {n.key} answered {res.take 30} but the htlc is on no invoice"
+      | some _ => pure ()
   -- (D) replay_same_verdict
   if let some n := s.opNotify then
     if let some (d, h) := findHtlcD s.prev n.key then
@@ -447,6 +477,21 @@ def mkCtx (n : NotifyRec) : Ctx :=
     ks := if n.ks == "none" then none
           else if n.ks.length == 64 then some (some (hexNatD n.ks)) else some none }
 
+def parseNotify (rest : List String) : NotifyRec :=
+  { hash := (kv? rest "h").getD "", key := (kvNat? rest "k").getD 0, amt := (kvNat? rest "amt").getD 0,
+    exp := (kvNat? rest "exp").getD 0, ht := (kvInt? rest "ht").getD 0,
+    mpp := parseMpp ((kv? rest "mpp").getD "none"),
+    amp := match kv? rest "amp" with
+      | some "none" => none
+      | some a => some ((a.splitOn "/").headD "")
+      | none => none,
+    ks := (kv? rest "ks").getD "none",
+    path := match kv? rest "path" with
+      | some "none" => none
+      | some a => some a
+      | none => none,
+    tot := (kvNat? rest "tot").getD 0 }
+
 /-- compare the model's reply with the implementation's, start expecting the model's messages. -/
 def modelOp (s : St) (reg' : Reg) (out : Out) (impl : String) : IO St := do
   let s := { s with reg := reg', expMsgs := out.msgs, modelOps := s.modelOps + 1 }
@@ -462,7 +507,7 @@ def leftoverMsgs (s : St) : IO St := do
 def startOp (s : St) (kind line : String) : IO St := do
   let s ← leftoverMsgs s
   let s ← finishOp s
-  return { s with opKind := kind, opLine := line, opNotify := none, opRes := resOf line, opHodl := [],
+  return { s with opKind := kind, opLine := line, opNotify := none, opRes := resOf line, opHodl := [], parOps := [],
                   prev := s.cur,
                   prevNone := s.curNone, cur := [], curNone := [], ops := s.ops + 1,
                   hist := bump s.hist (kind ++ "_" ++ resClass (resOf line) ++
@@ -485,7 +530,9 @@ def step (s : St) (line : String) : IO St := do
                        ksHold := kvNat? rest "kshold" == some 1, hold := (kvNat? rest "hold").getD 30,
                        sql := kv? rest "store" == some "sql" }
     let s := { s with caseId := id, cfg := cfg, ampOn := kvNat? rest "amp" == some 1,
-                       reg := Reg.empty, modelOn := true, expMsgs := [], rejectDelta := r,
+                       reg := Reg.empty, modelOn := kvNat? rest "conc" != some 1,
+                       concCases := s.concCases + (if kvNat? rest "conc" == some 1 then 1 else 0),
+                       parOps := [], expMsgs := [], rejectDelta := r,
                        prev := [], cur := [], curNone := [], prevNone := [], opKind := "",
                        opNotify := none, opHodl := [], intro := [], settledKeys := [],
                        canceledKeys := [], cases := s.cases + 1 }
@@ -514,6 +561,18 @@ def step (s : St) (line : String) : IO St := do
     if !s.modelOn then return s
     let (reg', out) := C15.step shaNat childPre s.cfg s.reg (.addInvoice spec)
     modelOp s reg' out s.opRes
+  | "pnotify" :: rest =>
+    -- one call of a concurrent group: remembered, evaluated at `pend`
+    let n := parseNotify rest
+    let s := { s with parOps := s.parOps ++ [(n, resOf line)], ops := s.ops + 1,
+                       hist := bump s.hist ("pnotify_" ++ resClass (resOf line)) }
+    return if resClass (resOf line) == "settle" || resClass (resOf line) == "accept" then
+      { s with nontrivial := s.nontrivial + 1 } else s
+  | "pend" :: _ =>
+    let ops := s.parOps
+    let s ← startOp { s with parOps := [] } "par" (line ++ " => ok")
+    return { s with parOps := ops, modelOn := false }
+  | "note" :: _ => return s
   | "notify" :: rest =>
     let s ← startOp s "notify" line
     let n : NotifyRec :=
@@ -604,7 +663,8 @@ def main (args : List String) : IO Unit := do
   IO.println s!"STAT stream_{args.headD "?"}=1"
   IO.println s!"STAT lines={s.lines}"
   IO.println s!"STAT cases={s.cases}"
-  IO.println s!"STAT cases_monitor_only_amp={s.ampCases}"
+  IO.println s!"STAT cases_monitor_only={s.ampCases}"
+  IO.println s!"STAT cases_concurrent={s.concCases}"
   IO.println s!"STAT evaluations={s.ops}"
   IO.println s!"STAT model_compared_ops={s.modelOps}"
   IO.println s!"STAT nontrivial={s.nontrivial}"
